@@ -198,6 +198,12 @@ class Ref:
                 return self.zsum(self.E(e.left, index, diagonal), self.neg(self.E(e.right, index, diagonal)))
             if isinstance(e.op, ast.Div):
                 return self.div(self.E(e.left, index, diagonal), self.E(e.right, index, diagonal))
+            if isinstance(e.op, ast.Mult):
+                # "unary and binary operations": a value times an integer literal (an absent value stays absent)
+                left, right = self.E(e.left, index, diagonal), self.E(e.right, index, diagonal)
+                if left is self.zero or right is self.zero:
+                    return self.zero
+                return left * right
             raise NotImplementedError(ast.dump(e))
         if isinstance(e, ast.UnaryOp) and isinstance(e.op, ast.USub):
             v = self.E(e.operand, index, diagonal)
